@@ -386,7 +386,8 @@ class Ctx:
         self.violations.append({"what": what, "replay": replay, "no_input": no_input})
 
     def known_finding(self, fid, what):
-        if (fid, what) not in self.known_hits:
+        """One KNOWN-FINDING line per listed finding (the first instance met)."""
+        if fid not in [k[0] for k in self.known_hits]:
             self.known_hits.append((fid, what))
 
 
